@@ -250,7 +250,11 @@ RulesLoop:
 				break RulesLoop
 			}
 		case corazatypes.AllowTypeAll:
-			break RulesLoop
+			// allow on its own skips the rest of this phase and every later phase except the
+			// logging phase, which always executes
+			if phase != types.PhaseLogging {
+				break RulesLoop
+			}
 		}
 		// Reset matched_vars only when the previous rule actually populated it.
 		// In typical CRS evaluation most rules don't match, so this avoids
